@@ -57,7 +57,7 @@ def run(ctx):
                     elif extra is not None and len(x.conds) == 3 and x.conds[2] == extra:
                         out.append(x)
             return out
-        hb = [x for x in rows if x.conds == [HB]]
+        hb = [x for x in rows if x.conds == [('frame', 'amq_protocol::frame::AMQPFrame::Heartbeat(_)'), ('frame.Heartbeat.0', '0')]]  # Heartbeat(0): the variant, then its channel
         r.check('heartbeat-ignored', len(hb) == 1 and hb[0].value_str() == 'Ok(())' and not notable(hb[0].effects), site, built=[x.row() for x in hb])
         r.check('row-count', len(rows) == 9, site, built=len(rows), expected=9)
         # Start
